@@ -110,16 +110,24 @@ func verifC17Run(msgs []string) (bool, string) {
 			}
 		}
 	}
-	logger.mu.Lock()
-	sock.mu.Lock()
+	// (a finished mutation is closed by a goroutine of its own: give the bookkeeping a moment to settle before judging)
 	midProblem := ""
-	for id := range logger.sub {
-		if got := logger.unsub[id] - sock.results[id]; got != wantClosed[id] {
-			midProblem = fmt.Sprintf("with the connection still open, subscription %s was closed %d time(s); it was unsubscribed %d time(s)", id, got, wantClosed[id])
+	for attempt := 0; attempt < 200; attempt++ {
+		logger.mu.Lock()
+		sock.mu.Lock()
+		midProblem = ""
+		for id := range logger.sub {
+			if got := logger.unsub[id] - sock.results[id]; got != wantClosed[id] {
+				midProblem = fmt.Sprintf("with the connection still open, subscription %s was closed %d time(s); it was unsubscribed %d time(s)", id, got, wantClosed[id])
+			}
 		}
+		sock.mu.Unlock()
+		logger.mu.Unlock()
+		if midProblem == "" {
+			break
+		}
+		time.Sleep(10 * time.Millisecond)
 	}
-	sock.mu.Unlock()
-	logger.mu.Unlock()
 	close(sock.in)
 	<-done
 	if midProblem != "" {
